@@ -73,7 +73,7 @@ Section Read.
     end.
 
   Definition config_read (FS : fs) (c : cfg) (top : option bytes) (text : bytes) : rd_result :=
-    let '(c1, ev_clear) := clear_cfg c in
+    let '(c1, ev_clear) := clear_cfg (set_err c err0) in      (* __config_reset_error, config_clear *)
     let root0 := set_pos (c_root c1) 0 top in          (* config->root->file = top filename *)
     let '(toks, stop) := lex_top FS c1 top text in
     let s0 := mkP root0 toks false O 0 None in
@@ -109,9 +109,9 @@ Section Read.
         mkRd (rd_cfg r) (rd_out_ r) ([EvOpen path] ++ rd_events r ++ [EvClose path]) (rd_stdout r)
     | Some FDir =>
         (* fopen succeeds, fstat says directory: closed again, I/O error *)
-        mkRd (set_err c (mkErr 1 (Some ERR_IO) (e_file (c_err c)) (e_line (c_err c)))) RdFail
+        mkRd (set_err c (mkErr 1 (Some ERR_IO) None 0)) RdFail
              [EvOpen path; EvClose path] []
     | None =>
-        mkRd (set_err c (mkErr 1 (Some ERR_IO) (e_file (c_err c)) (e_line (c_err c)))) RdFail [] []
+        mkRd (set_err c (mkErr 1 (Some ERR_IO) None 0)) RdFail [] []
     end.
 End Read.
